@@ -77,9 +77,40 @@ def problem_header(c, with_dfa=True, hints=False):
             lines.append(' '.join(map(str, parts)))
             dead = sorted(set([q for q in list(dfa.states) + [0] if q not in rank]))
             lines.append('DS %d %s' % (len(dead), ' '.join(map(str, dead))))
+            P = capmod.utf8_product(dfa)
+            parts = ['PU', len(P)]
+            for q, us in sorted(P.items()):
+                parts += [q, len(us)] + sorted(us)
+            lines.append(' '.join(map(str, parts)))
     codes = behaviour_codes(c)
     lines.append('A %d %s' % (len(codes), ' '.join(str(x or 0) for x in codes)))
     lines.append('U %d' % (1 if c.utf8 else 0))
+    return lines
+
+
+def dfa_header(c):
+    """Problem-file records for a DFA-only capture (subpatterns): DFA, dead-set and UTF-8 product hints."""
+    d = c.dfa
+    lines = ['D %d' % d['start']]
+    for q in sorted(d['states']):
+        if q == 0:
+            continue
+        st = d['states'][q]
+        tr = [(lo, hi, t) for lo, hi, t in st['trans'] if t != 0]
+        parts = ['Q', q, st['eoi'], len(st['match'])] + st['match'] + [len(tr)]
+        for lo, hi, t in tr:
+            parts += [lo, hi, t]
+        lines.append(' '.join(map(str, parts)))
+    lines.append('PR %d %s' % (len(c.leaves), ' '.join(str(l['prio']) for l in c.leaves)))
+    dfa = capmod.Dfa(c)
+    rank = dfa.live_ranks()
+    dead = sorted(set([q for q in list(dfa.states) + [0] if q not in rank]))
+    lines.append('DS %d %s' % (len(dead), ' '.join(map(str, dead))))
+    P = capmod.utf8_product(dfa)
+    parts = ['PU', len(P)]
+    for q, us in sorted(P.items()):
+        parts += [q, len(us)] + sorted(us)
+    lines.append(' '.join(map(str, parts)))
     return lines
 
 
@@ -149,9 +180,12 @@ def parse_model_output(lines):
         if ln.startswith('P '):
             m = re.match(r'P (\S+) ref: (.*) \| spec: (.*)$', ln)
             res[m[1]] = (parse_model_line(m[2]), None if m[3].strip() == '-' else parse_model_line(m[3]))
+        elif ln.startswith('CU '):
+            p = ln.split()
+            res['CU:' + p[1]] = [x == '1' for x in p[2:5]]
         elif ln.startswith('C '):
             p = ln.split()
-            res['C:' + p[1]] = [x == '1' for x in p[2:7]]
+            res['C:' + p[1]] = [x == '1' for x in p[2:9]]
     return res
 
 
